@@ -173,7 +173,7 @@ def run(chk):
         if c == "wrap":
             return {"k": "wrap", "w": rng.choice(["Box", "Arc", "Rc", "Cow", "Cell", "RefCell", "Mutex", "RwLock"]), "e": rnd(d - 1)}
         if c == "map":
-            return {"k": "map", "key": rng.choice([{"k": "prim", "n": "String"}, {"k": "prim", "n": "u32"}, {"k": "user", "n": "User", "args": []}]), "val": rnd(d - 1)}
+            return {"k": rng.choice(["map", "map", "map3"]), "key": rng.choice([{"k": "prim", "n": "String"}, {"k": "prim", "n": "u32"}, {"k": "user", "n": "User", "args": []}]), "val": rnd(d - 1)}
         if c == "gen":
             return {"k": "user", "n": "Gen", "args": [rnd(d - 1)]}
         return {"k": c, "e": rnd(d - 1)}
